@@ -125,6 +125,9 @@ func setupUniverse(timeT types.Type) {
 	}
 	types.Universe.Insert(types.NewFunc(token.NoPos, nil, "implies__", types.NewSignatureType(nil, nil, nil, types.NewTuple(v("a", bt), v("b", bt)), types.NewTuple(v("", bt)), false)))
 	types.Universe.Insert(types.NewFunc(token.NoPos, nil, "isfinite", types.NewSignatureType(nil, nil, nil, types.NewTuple(v("x", types.Typ[types.Float64])), types.NewTuple(v("", bt)), false)))
+	for _, n := range []string{"floordiv", "floormod"} {
+		types.Universe.Insert(types.NewFunc(token.NoPos, nil, n, types.NewSignatureType(nil, nil, nil, types.NewTuple(v("a", mathintType), v("b", mathintType)), types.NewTuple(v("", mathintType)), false)))
+	}
 	if timeT != nil {
 		types.Universe.Insert(types.NewFunc(token.NoPos, nil, "unixns", types.NewSignatureType(nil, nil, nil, types.NewTuple(v("t", timeT)), types.NewTuple(v("", mathintType)), false)))
 	}
@@ -407,6 +410,26 @@ func (vc *VC) verifyFunc(fi *FuncInfo) (res *FuncResult) {
 		}
 	}
 	f0.oldSt = st.clone()
+	baseRI := &ReplayInfo{Fn: fi}
+	{
+		entry := st.clone()
+		if recv != nil {
+			baseRI.Params = append(baseRI.Params, replayParam{Name: "recv", T: recv.T, V: *recv, Heap: entry, Recv: true})
+		}
+		for i, a := range args {
+			baseRI.Params = append(baseRI.Params, replayParam{Name: sig.Params().At(i).Name(), T: a.T, V: a, Heap: entry})
+		}
+	}
+	defer func() {
+		for _, o := range ex.obls {
+			if o.Replay == nil {
+				o.Replay = baseRI
+			}
+		}
+		if res != nil && res.Obls == nil {
+			res.Obls = ex.obls
+		}
+	}()
 	if fi.Con != nil {
 		for _, e := range fi.Con.Entries {
 			v := ex.evalClauseIn(e, st, st, f0.bind)
@@ -460,7 +483,9 @@ func (vc *VC) verifyFunc(fi *FuncInfo) (res *FuncResult) {
 			if label == "" {
 				label = fmt.Sprintf("#%d", i)
 			}
-			o := &Obligation{Name: fmt.Sprintf("%s/ensures:%s@return%d", fi.Short, label, k), Kind: "ensures", Func: fi.Short, Goal: g, Facts: append([]*Term(nil), r.st.pc...), Clause: c.Text, Label: c.Label, Pos: c.Line, Bounded: ex.bounded}
+			ri := *baseRI
+			ri.Results = r.vals
+			o := &Obligation{Name: fmt.Sprintf("%s/ensures:%s@return%d", fi.Short, label, k), Kind: "ensures", Func: fi.Short, Goal: g, Facts: append([]*Term(nil), r.st.pc...), Clause: c.Text, Label: c.Label, Pos: c.Line, Bounded: ex.bounded, Replay: &ri}
 			if g.isTrue() {
 				o.Status = "trivial"
 			}
@@ -516,8 +541,15 @@ func (vc *VC) checkLemma(l *Lemma) (o *Obligation, err error) {
 			return nil, fmt.Errorf("lemma %s: %v", l.Name, err)
 		}
 		info := &types.Info{Types: map[ast.Expr]types.TypeAndValue{}, Uses: map[*ast.Ident]types.Object{}, Defs: map[*ast.Ident]types.Object{}, Selections: map[*ast.SelectorExpr]*types.Selection{}, Instances: map[*ast.Ident]types.Instance{}, Implicits: map[ast.Node]types.Object{}}
-		if err := types.CheckExpr(vc.fset, p.Types, file.Name.Pos(), e, info); err != nil {
-			return nil, fmt.Errorf("lemma %s: %v", l.Name, err)
+		var cerr error
+		for _, f := range append([]*ast.File{file}, p.Syntax...) {
+			info = &types.Info{Types: map[ast.Expr]types.TypeAndValue{}, Uses: map[*ast.Ident]types.Object{}, Defs: map[*ast.Ident]types.Object{}, Selections: map[*ast.SelectorExpr]*types.Selection{}, Instances: map[*ast.Ident]types.Instance{}, Implicits: map[ast.Node]types.Object{}}
+			if cerr = types.CheckExpr(vc.fset, p.Types, f.Name.Pos(), e, info); cerr == nil {
+				break
+			}
+		}
+		if cerr != nil {
+			return nil, fmt.Errorf("lemma %s: %v", l.Name, cerr)
 		}
 		c := &Clause{Kind: "lemma", Text: text, compiled: true, Lit: e.(*ast.FuncLit), Info: info, Pkg: p.Types, Params: map[string]types.Object{}, Line: l.Line}
 		for _, f := range c.Lit.Type.Params.List {
@@ -563,7 +595,17 @@ func (vc *VC) checkLemma(l *Lemma) (o *Obligation, err error) {
 	for _, c := range enss {
 		gs = append(gs, ex.evalClause(c, st, st, bind))
 	}
-	return &Obligation{Name: p.Types.Name() + ".lemma:" + l.Name, Kind: "lemma", Func: "lemma:" + l.Name, Goal: mkAnd(gs...), Facts: st.pc, Clause: strings.Join(l.Ensures, " && "), Pos: l.Line}, nil
+	ri := &ReplayInfo{Lemma: l}
+	entry := st.clone()
+	var names []string
+	for name := range bind {
+		names = append(names, name)
+	}
+	sort.Strings(names)
+	for _, name := range names {
+		ri.Params = append(ri.Params, replayParam{Name: name, T: bind[name].T, V: bind[name], Heap: entry})
+	}
+	return &Obligation{Name: p.Types.Name() + ".lemma:" + l.Name, Kind: "lemma", Func: "lemma:" + l.Name, Goal: mkAnd(gs...), Facts: st.pc, Clause: strings.Join(l.Ensures, " && "), Pos: l.Line, Replay: ri}, nil
 }
 
 // ---- lock-guarded state (declared with //@ guarded_by in a later version) ----
